@@ -330,7 +330,10 @@ def random_case(rng):
     nt = rng.randint(2, 4)
     nk = rng.randint(1, 3)
     keys = rng.sample(POOL, nk)
-    if rng.random() < 0.3:
+    if rng.random() < 0.2:
+        # argument patterns that differ only by a keyword next to one positional int / str (the key's single-argument fast path)
+        keys = rng.choice([[K1, P(I1, a=I2), P(I1, b=I2)], [P(SA), P(SA, a=SA), K1], [P(I1, a=I2), K1, P(a=I1)]])[:max(nk, 2)]
+    elif rng.random() < 0.3:
         keys = (keys + [P(F1), P(BT)])[:3]       # equal under == , distinct when typed
     ms = rng.choice([None, 1, 1, 2, 2, 3, 0])
     typed = rng.random() < 0.3
